@@ -1234,3 +1234,64 @@ def rule_o(ctx: Ctx) -> None:
                              "self._chunks[self._chunk_index] raises IndexError (a raise_error() that returns under a lenient error level does not end the path)")
     ctx.count("advance_chunk_sites", n)
     ctx.min_instances("advance_chunk_sites", n, 2)
+
+
+# ------------------------------------------------------------------------------------------ C05.p
+# Enum members looked up by a name computed from the input: Enum[...] raises KeyError for a non-member.
+
+def rule_p(ctx: Ctx) -> None:
+    ctx.rule(
+        "C05.p",
+        "enum lookups by computed name are guarded: every <Enum>[<non-constant>] in the tokenizer / parser / generator modules is dominated by a membership test of the "
+        "same key (`in <Enum>.__members__`, hasattr) or runs under try/except KeyError — a type token without a DataType counterpart otherwise leaks KeyError",
+    )
+    repo = ctx.repo
+    enums = {c.name for c in repo.all_classes() if any(x.name in ("Enum", "AutoName", "IntEnum", "StrEnum") or b.split(".")[-1] in ("Enum", "AutoName", "IntEnum", "StrEnum") for x in repo.mro(c) for b in (x.bases or [""]))}
+    probe = ast.parse("x = exp.DType[tok.name]\n")
+    ctx.require("DType" in enums, "anchor vanished: DType is no longer recognised as an Enum class")
+    n = 0
+    for m in repo.modules.values():
+        if not (m.name in K_SCOPE_EXACT or m.name.startswith(K_SCOPE_PREFIX)):
+            continue
+        for s_ in m.of_type(ast.Subscript):
+            if not isinstance(s_.ctx, ast.Load) or isinstance(s_.slice, (ast.Constant, ast.Slice)):
+                continue
+            d = norm(s_.value)
+            if d.split(".")[-1] not in enums or not d.split(".")[-1][:1].isupper():
+                continue
+            n += 1
+            f = m.enclosing_func(s_)
+            where = f.key if f else m.name
+            key = norm(s_.slice)
+            ok, why = False, ""
+            cur: ast.AST = s_
+            p = m.parent(cur)
+            while p is not None and (f is None or p is not f.node):
+                if isinstance(p, ast.Try) and any(cur is x or any(cur is y for y in ast.walk(x)) for x in p.body) and _handlers_catch(p, ("KeyError", "LookupError", "Exception")):
+                    ok, why = True, "inside try/except KeyError"
+                    break
+                cur, p = p, m.parent(p)
+            if not ok and f is not None:
+                # early exit earlier in an enclosing block: `if <key> not in <Enum>.__members__: ...; return/raise`
+                st = m.enclosing_stmt(s_)
+                blk = m.parent(st) if st is not None else None
+                while st is not None and blk is not None and not ok:
+                    for fld in ("body", "orelse"):
+                        seq = getattr(blk, fld, None)
+                        if isinstance(seq, list) and st in seq:
+                            for prev_st in seq[: seq.index(st)]:
+                                if isinstance(prev_st, ast.If) and prev_st.body and isinstance(prev_st.body[-1], (ast.Return, ast.Raise, ast.Continue, ast.Break)):
+                                    t_ = norm(prev_st.test, 200)
+                                    if key in t_ and "not in" in t_ and ("__members__" in t_ or d.split(".")[-1] in t_):
+                                        ok, why = True, f"after the early exit `if {norm(prev_st.test, 50)}`"
+                    if isinstance(blk, (ast.FunctionDef, ast.AsyncFunctionDef)):
+                        break
+                    st, blk = blk, m.parent(blk)
+            inst = f"{where}|{norm(s_, 60)}"
+            if ok:
+                ctx.ok(inst, {"lookup": norm(s_, 60), "in": where, "protected": why})
+            else:
+                ctx.fail(m, s_, where, s_, f"`{norm(s_, 60)}` looks an enum member up by a name computed from the input without a membership test or a KeyError handler: "
+                                           f"a name that is not a member (e.g. the type token NULLABLE with two arguments) leaks KeyError")
+    ctx.count("enum_lookups_by_computed_name", n)
+    ctx.min_instances("enum_lookups_by_computed_name", n, 1)
